@@ -545,4 +545,177 @@ theorem ninv_send_x {cfg : Cfg} {M : List Nat} {adr : Nat → Nat} {n : Net} {v 
     rw [e4]
     exact hphs
 
+theorem NInv.phyX {cfg : Cfg} {M : List Nat} {adr : Nat → Nat} {n : Net} {v : NView} (h : NInv cfg M adr n v)
+    (l now : Int) (hl : v.sx.s.lastBusActivity = some l) (hlt : l < now) : n.bus.transmitting v.x now = false :=
+  transmitting_listener cfg M adr _ n.bus h.log v.x l now (h.ownX l hl) hlt
+
+/-- Phase `hold`, polled before the end of the synchronisation pause. -/
+theorem stepNX_hold_wait {cfg : Cfg} {M : List Nat} {adr : Nat → Nat} {n : Net} {v : NView} (h : NInv cfg M adr n v)
+    (hok : cfg.Ok) (p1 : Int) (hph : v.ph = .hold p1) (now : Int) (e : EvOkN cfg n v.tl v.x now)
+    (hw : now ≤ p1 + (cfg.b33 : Nat)) : NStepOut cfg M adr n v v.x now := by
+  have hP := h.ph
+  unfold PhaseOkN at hP
+  rw [hph] at hP
+  obtain ⟨⟨d, f, hst⟩, hlx, htok, hend, hp1, hsx, hH, hLo, hp1P⟩ := hP
+  simp only at hp1 hsx
+  have hown := e.own
+  have hxs : v.x < n.bus.seen.length := by rw [h.log.seen]; exact h.xlt
+  have hphy := h.phyX p1 now hlx (by omega)
+  obtain ⟨s', hp, hce, hl', hpb'⟩ := holder_poll_waits v.sx.s [] now p1 d f h.okx.son hst hlx
+    (by rw [h.okx.b33]; exact hw)
+  refine ninv_quiet_x h hok now e { s := s', apps := [], rx := [] } (by rw [hphy]; exact hp) rfl hce.1 hce.2.1
+    (hce.2.2.1.trans h.okx.son) (hpb'.trans h.pbx) rfl (hl'.trans hlx.symm) ?_
+  unfold PhaseOkN NView.setX upSt
+  simp only [hph]
+  rw [seen_set_self _ _ _ hxs]
+  exact ⟨⟨d, f, hce.2.2.2.2.1.trans hst⟩, hl', htok, hend, by omega, hw, hH, hLo, hp1P⟩
+
+/-- Phase `gap`, polled before the slot time has expired. -/
+theorem stepNX_gap_wait {cfg : Cfg} {M : List Nat} {adr : Nat → Nat} {n : Net} {v : NView} (h : NInv cfg M adr n v)
+    (hok : cfg.Ok) (g : Nat) (hph : v.ph = .gap g) (now : Int) (e : EvOkN cfg n v.tl v.x now)
+    (hw : now ≤ v.tr.start + (cfg.b66 : Nat) + (cfg.slot : Nat)) : NStepOut cfg M adr n v v.x now := by
+  have hP := h.ph
+  unfold PhaseOkN at hP
+  rw [hph] at hP
+  obtain ⟨hs1, hb, hst, hlx, hq, hsx, hH, hLo⟩ := hP
+  simp only at hq hsx
+  have hown := e.own
+  have hxs : v.x < n.bus.seen.length := by rw [h.log.seen]; exact h.xlt
+  have hpoll : v.sx.s.poll [] now (n.bus.transmitting v.x now) [] = .ok { s := v.sx.s, apps := [], rx := [] } := by
+    by_cases hle : now ≤ v.tr.start + (cfg.b66 : Nat)
+    · exact poll_ongoing v.sx.s [] now _ [] h.okx.son (by rw [hst]; simp) (by rw [hst]; simp) _ hlx hle
+    · rw [h.phyX _ now hlx (by omega)]
+      exact await_poll_waits v.sx.s now _ g h.okx.inv h.okx.son hst hlx (by omega) (by rw [h.okx.slot]; omega)
+  refine ninv_quiet_x h hok now e _ hpoll rfl rfl rfl h.okx.son h.pbx rfl rfl ?_
+  unfold PhaseOkN NView.setX upSt
+  simp only [hph]
+  rw [seen_set_self _ _ _ hxs]
+  exact ⟨hs1, hb, hst, hlx, by omega, hw, hH, hLo⟩
+
+/-- Phase `pass`, the supervising sender is polled: the successor has not even seen the complete token. -/
+theorem stepNX_pass {cfg : Cfg} {M : List Nat} {adr : Nat → Nat} {n : Net} {v : NView} (h : NInv cfg M adr n v)
+    (hok : cfg.Ok) (hph : v.ph = .pass) (now : Int) (e : EvOkN cfg n v.tl v.x now) : NStepOut cfg M adr n v v.x now := by
+  have hP := h.ph
+  unfold PhaseOkN at hP
+  rw [hph] at hP
+  obtain ⟨hs1, hb, hst, hlx, hq, hH, hLo, hsucc⟩ := hP
+  simp only at hq hsucc
+  have hown := e.own
+  have hmar := hok.margin
+  have hc2 := cfg.ce2 hok.rate
+  have hxs : v.x < n.bus.seen.length := by rw [h.log.seen]; exact h.xlt
+  have hlen : v.tr.bytes.length = 3 := by rw [hb]; rfl
+  have hce : cEnd cfg v.tr = v.tr.start + ((cfg.ce 2 : Nat) : Int) := by unfold cEnd; rw [hlen]
+  obtain ⟨s, hs1', hs2, hsx⟩ := h.ring.succ_idx v.x h.xlt
+  have hss := hsucc s hs1' hs2
+  rw [hce] at hss
+  have hgs := e.gap s hs1'
+  have hpoll : ∃ c', v.sx.s.poll [] now (n.bus.transmitting v.x now) [] = .ok c' ∧ c'.tx = none ∧ c'.s = v.sx.s ∧
+      c'.apps = [] ∧ c'.rx = [] := by
+    by_cases hle : now ≤ v.tr.start + (cfg.b33 : Nat)
+    · exact ⟨_, poll_ongoing v.sx.s [] now _ [] h.okx.son (by rw [hst]; simp) (by rw [hst]; simp) _ hlx hle,
+        rfl, rfl, rfl, rfl⟩
+    · rw [h.phyX _ now hlx (by omega)]
+      obtain ⟨c', hc', htx', hs', ha', hr'⟩ := check_poll_partial v.sx.s now [] .first _ h.okx.inv h.okx.son hst hlx (by omega)
+        (.inr (by rw [h.okx.slot]; omega)) receiveAll_nil
+      simp only [List.length_nil, checkBus_nil] at hs'
+      exact ⟨c', hc', htx', hs', ha', hr'⟩
+  obtain ⟨c', hc', htx', hs', ha', hr'⟩ := hpoll
+  refine ninv_quiet_x h hok now e c' hc' htx' (by rw [hs']) (by rw [hs']) (by rw [hs']; exact h.okx.son)
+    (by rw [hs']; exact h.pbx) hr' (by rw [hs']) ?_
+  unfold PhaseOkN NView.setX upSt
+  simp only [hph, hs']
+  rw [seen_set_self _ _ _ hxs]
+  refine ⟨hs1, hb, hst, hlx, by omega, hH, hLo, ?_⟩
+  intro s' hs'1 hs'2
+  have hne : s' ≠ v.x := by
+    intro e'; rw [e'] at hs'2; exact h.ring.two _ (h.ring.mem v.x h.xlt) hs'2.symm
+  rw [seen_set_other _ _ _ _ (Ne.symm hne)]
+  exact hsucc s' hs'1 hs'2
+
+theorem bitsN_11_3 (p : Params) : p.bits (11 * 3) = p.bits 33 := rfl
+theorem bitsN_11_6 (p : Params) : p.bits (11 * 6) = p.bits 66 := rfl
+
+theorem nextGapPoll_between (ts ns hsa cur a : Nat) (h : nextGapPoll ts ns hsa cur = .poll a) (hne : ns ≠ ts) :
+    Between ts ns a := by
+  unfold nextGapPoll at h
+  by_cases h0 : hsa = 0
+  · rw [if_pos h0] at h; cases h
+  rw [if_neg h0] at h
+  by_cases h1 : cur ≠ hsa - 1 ∧ cur ≥ 255
+  · rw [if_pos h1] at h; cases h
+  rw [if_neg h1] at h
+  simp only at h
+  generalize (if cur = hsa - 1 then 0 else cur + 1) = nx at h
+  unfold Between
+  by_cases h2 : ns > ts
+  · simp only [h2, if_true, decide_eq_true_eq] at h
+    by_cases hg : nx > ts ∧ nx < ns
+    · rw [if_pos hg] at h; cases h
+      refine ⟨by omega, ?_⟩
+      rw [if_pos (by omega)]; exact hg
+    · rw [if_neg hg] at h; cases h
+  · by_cases h3 : ns < ts
+    · simp only [h2, h3, if_true, if_false, decide_eq_true_eq] at h
+      by_cases hg : nx > ts ∨ nx < ns
+      · rw [if_pos hg] at h; cases h
+        refine ⟨by omega, ?_⟩
+        rw [if_neg (by omega), if_pos h3]; exact hg
+      · rw [if_neg hg] at h; cases h
+    · omega
+
+/-- The station whose turn it is passes the token (from `hold` directly, or after an unanswered GAP request). -/
+theorem stepNX_token {cfg : Cfg} {M : List Nat} {adr : Nat → Nat} {n : Net} {v : NView} (h : NInv cfg M adr n v)
+    (hok : cfg.Ok) (hP100 : cfg.P ≤ 100000) (now : Int) (e : EvOkN cfg n v.tl v.x now) (c : Ctx)
+    (hp : v.sx.s.poll [] now (n.bus.transmitting v.x now) [] = .ok c)
+    (htx : c.tx = some (tokenBytes v.sx.s.ring.ns v.sx.s.p.address))
+    (hring : c.s.ring = v.sx.s.ring.witness v.sx.s.p.address v.sx.s.ring.ns)
+    (hst : c.s.st = (if (v.sx.s.ring.witness v.sx.s.p.address v.sx.s.ring.ns).ns = v.sx.s.p.address
+                then FState.useToken ⟨now, none⟩ false else FState.checkTokenPass .first))
+    (hlast : c.s.lastBusActivity = some (now + (v.sx.s.p.bits (11 * 3) : Nat)))
+    (h1 : c.s.p = v.sx.s.p) (h3 : c.s.online = true) (h4 : c.s.pendingBytes = 0) (h5 : c.rx = [])
+    (hq1 : v.Lo < now) (hends : ∀ o ∈ n.bus.txs, cEnd cfg o ≤ now)
+    (hnotok : ∀ j, j < n.stations.length → j ≠ v.x → ∀ a, v.tr.bytes ≠ tokenBytes (adr j) a)
+    (hturn : v.turn M adr = adr v.x) (hsync : cEnd cfg v.tr + (cfg.b33 : Nat) < now) :
+    NStepOut cfg M adr n v v.x now := by
+  have hc2 := cfg.ce2 hok.rate
+  have hc0 := cfg.ce_pos hok.rate 2
+  have hxs : v.x < n.bus.seen.length := by rw [h.log.seen]; exact h.xlt
+  have hns : v.sx.s.ring.ns = cycSucc (adr v.x) M := h.okx.view.ns.1
+  have hview' : RingView M (adr v.x) (v.sx.s.ring.witness (adr v.x) (cycSucc (adr v.x) M)) := h.okx.view.witness
+  rw [h.okx.addr, hns] at htx hring hst
+  have hst' : c.s.st = .checkTokenPass .first := by
+    rw [hst, hview'.ns.1, if_neg (h.ring.two _ (h.ring.mem v.x h.xlt))]
+  have hlast' : c.s.lastBusActivity = some (now + (cfg.b33 : Nat)) := by
+    rw [hlast, bitsN_11_3, h.okx.bits]; rfl
+  have hLo : v.Lo ≤ now + ((cfg.ce 2 : Nat) : Int) + (cfg.b33 : Nat) := by omega
+  obtain ⟨n', pre', hn', hinv'⟩ := ninv_send_x h hok hP100 now e c _ .pass
+    (now + ((cfg.ce 2 : Nat) : Int) + 2 * (cfg.P : Nat) + (cfg.b33 : Nat)) (now + ((cfg.ce 2 : Nat) : Int) + (cfg.b33 : Nat))
+    hp htx h1 (by rw [hring]; exact hview') h3 h4 h5 (by show 0 < 3; omega)
+    ⟨v.x, h.xlt, rfl, .inl rfl⟩ hq1 hLo hends hnotok
+    (by
+      intro l hl
+      rw [hlast'] at hl
+      cases hl
+      refine ⟨by omega, ?_⟩
+      show now + ((cfg.ce 2 : Nat) : Int) ≤ _
+      omega)
+    (by
+      intro pre'
+      unfold PhaseOkN NView.sendX upSt
+      simp only
+      rw [seen_set_self _ _ _ hxs]
+      refine ⟨trivial, trivial, hst', hlast', Int.le_refl _, rfl, rfl, ?_⟩
+      intro s hs hsa
+      have hne : s ≠ v.x := by
+        intro e'; rw [e'] at hsa; exact h.ring.two _ (h.ring.mem v.x h.xlt) hsa.symm
+      rw [seen_set_other _ _ _ _ (Ne.symm hne)]
+      have := h.tls s hs
+      have := e.tl
+      show _ < now + ((cfg.ce 2 : Nat) : Int)
+      omega)
+  refine ⟨n', _, [], c, hn', hinv', rfl, .inr ⟨_, htx, hturn.symm, hsync, rfl, .inr ⟨rfl, ?_⟩⟩⟩
+  unfold NView.turn NView.sendX
+  rfl
+
 end PV
